@@ -321,6 +321,24 @@ CHECKS["C14"] = {
 }
 
 
+CHECKS["C11"] = {
+    "level": "exploration",
+    "technique": "exhaustive product enumeration of ambiguity triggers x spellings x header orders x cut positions through the real request path",
+    "level_text": "12 ambiguity triggers (TE:chunked+CL in three list forms, CL twice same/different, folded CL, TE:chunked on HTTP/1.0, unparseable CL x4, unsupported TE x3, URI host / port != "
+                  "Host, no Host on 1.1, 8 invalid Host headers, 8 invalid URI hosts) plus a negative control are combined with the full product of header-name casing {lower, UPPER, Mixed}, "
+                  "optional white space before/after the value, ALL permutations of the header lines, and (thorough) token casing and asymmetric white space; every request is delivered "
+                  "whole, with every single cut inside the header block, and byte by byte. The indicator the statement names must be set, chunked framing used when chunked is present; the "
+                  "control must raise none of the indicators.",
+    "level_note": "Unparseable Content-Length is taken as 'no decimal number at all or a value that does not fit' (x, empty, abc, 20 nines); values with leading junk such as -1 are parsed "
+                  "leniently by design (logged) and are not judged. The 'iff' direction is only guarded by the control.",
+    "design_ref": "DESIGN.md §6 C11",
+    "rule": "trigger x spelling product x all header permutations x {whole, every cut in the header block, 1-byte}; distinct = distinct transaction dumps",
+    "bounds": {"quick": "name casing x symmetric OWS {none, SP} x all permutations x all header-block cuts (1.3e5 executions)", "thorough": "+ token casing x all 16 OWS pairs"},
+    "assumptions": ["IDS personality", "base request POST /p with Host h.example"],
+    "jobs": lambda tier: [J("enum_c11", "plain"), J("enum_c11", "asan", ["--full", "0", "--cuts", "0"] if tier == "quick" else ["--full", "0"])],
+}
+
+
 def manifest():
     import json, os
     root = os.path.dirname(os.path.dirname(os.path.abspath(__file__)))
@@ -357,6 +375,7 @@ ENGINES = [
     {"name": "enum_c17", "path": "mc/enum_c17.c", "serves_properties": ["C17"], "kind_free_text": "E4+E3: BFS over container op sequences and exhaustive primitive arguments vs reference models"},
     {"name": "faultmc", "path": "mc/faultmc.c", "serves_properties": ["C18"], "kind_free_text": "E5: exhaustive k-th allocation failure enumeration under ASan+UBSan"},
     {"name": "mpartmc", "path": "mc/mpartmc.c", "serves_properties": ["C14"], "kind_free_text": "E1 on htp_mpartp_parse: generated multipart bodies x cut sets vs generator ground truth"},
+    {"name": "enum_c11", "path": "mc/enum_c11.c", "serves_properties": ["C11"], "kind_free_text": "E3: ambiguity trigger x spelling x permutation x cut product through the real request path"},
     {"name": "cutmc", "path": "mc/cutmc.c", "serves_properties": ["C01", "C02", "C03", "C04", "C06", "C10", "C16"], "kind_free_text": "E1: stateless deviation-bounded explorer of segmentation / generated grammar on the real code"},
 ]
 
